@@ -174,6 +174,26 @@ PROPS = {
                       "real client incl. the two schedules on which the unrepaired client broke isolation.",
         "level_note": "Trusted: Coq kernel, extraction, rig and hooks. Modelled, not verified: client/client.go.",
     },
+    "C10": {
+        "rule": "exhaustive per-attempt outcome sequences {ok, service error, connection lost, context cancelled, deadline exceeded} up to "
+                "the retry bound for modes {fail-fast, fail-try, fail-over} x retries 0..2 x 1..3 servers (quick: every third), plus "
+                "160 (thorough 4000) random scripts with refused dials, 0..4 servers, retries 0..3, arbitrary round-robin cursor; every "
+                "script is run through XClient.Call AND XClient.SendRaw against scripted servers; distinct = distinct model-input line; "
+                "non-trivial = at least 2 attempts or 2 servers",
+        "theorems": ["C10_call_contract", "C10_failover_reselects_differently"],
+        "assumptions": ["the environment (what each dial and each attempt does) is a universally quantified per-server script",
+                        "the selector is round-robin (a deterministic client.SelectByUser selector in the harness)",
+                        "fail-backup is timing-dependent and is exercised by the harness only (not modelled): see DESIGN.md",
+                        "RetryInterval = 0; plugins and breakers absent"],
+        "trusted": ["client.ConnFactories[\"vsrv\"] scripted servers (harness/cmd/vh/fakesrv.go)"],
+        "level_text": "Theorem for every mode, retry count, server count and per-server script: the requests a call delivers number at "
+                      "most retries+1 (one for fail-fast), success is returned exactly when the attempt the call ends with succeeded and "
+                      "with its reply, a service error / cancelled context / deadline is the last attempt, fail-try stays on one server, "
+                      "and the next round-robin selection differs when more than one server exists. The model mirrors the err/e variables "
+                      "of the Go loops and is compared with XClient.Call and XClient.SendRaw on every script.",
+        "level_note": "Trusted: Coq kernel, extraction, scripted-server harness. Modelled, not verified: xClient.Call, xClient.SendRaw, "
+                      "selectClient/getCachedClient/removeClient. Fail-backup: exercised, not modelled.",
+    },
     "C12": {
         "rule": "exhaustive weight vectors (quick: n<=3,w<=4 and n=4,w<=2; thorough: n<=4,w<=6) from a random window "
                 "offset, round-robin sets n=0..8 from every cursor offset, and random update/selection histories over a "
